@@ -31,7 +31,7 @@ CONSTANTS Contents,     \* set of zone contents beside the SOA (sets of records)
           MaxSteps,     \* a chain has 1..MaxSteps+1 versions
           Kinds,        \* which kinds of exchange the environment may choose (see Exchanges)
           FaultKinds,   \* subset of {"none","drop","dup","swap","trunc","serial","owner","type","surplus","rcode","question"}
-          MaxCuts,      \* at most this many cut points (-1: every cut); "one record per message" is always included
+          MaxCuts,      \* at most this many cut points (99: every cut); "one record per message" is always included
           QModes,       \* subset of {"all","first"}: which messages repeat the question
           Revs          \* subset of BOOLEAN: emit the records of a section in reverse order
 
@@ -292,7 +292,7 @@ Exchanges(V, rev) ==
             : u \in BOOLEAN}
     \cup {[kind |-> "behind", req |-> "ixfr", udp |-> u, k |-> L, stream |-> <<SoaRec(V[j].ser)>>, tgt |-> L]
             : u \in BOOLEAN, j \in 1..(L - 1)}
-    \cup {[kind |-> "usetcp", req |-> "ixfr", udp |-> TRUE, k |-> k, stream |-> <<SoaRec(V[L].ser)>>, tgt |-> k]
+    \cup {[kind |-> "usetcp", req |-> "ixfr", udp |-> TRUE, k |-> k, stream |-> <<SoaRec(V[L].ser)>>, tgt |-> L]
             : k \in 1..(L - 1)}
 
 NoFault == [k |-> "none", i |-> 0, s |-> <<0, 0>>]
@@ -323,7 +323,7 @@ ApplyFault(st, f) ==
 RECURSIVE KSubsets(_, _)
 KSubsets(S, k) == IF k = 0 THEN {{}} ELSE LET P == KSubsets(S, k - 1) IN P \cup {p \cup {x} : p \in P, x \in S}
 CutSets(n, k) == IF n <= 1 THEN {{}}
-                 ELSE (IF k < 0 THEN SUBSET (1..(n - 1)) ELSE KSubsets(1..(n - 1), k)) \cup {1..(n - 1)}
+                 ELSE (IF k >= n - 1 THEN SUBSET (1..(n - 1)) ELSE KSubsets(1..(n - 1), k)) \cup {1..(n - 1)}
 RECURSIVE Split(_, _, _)
 Split(st, C, from) ==
     IF from > Len(st) THEN <<>>
